@@ -126,13 +126,21 @@ func (x *Exec) execInstr(p *Path, in ssa.Instruction, work *[]*Path) bool {
 		cp := x.val(p, v.Cap)
 		x.guard(p, fmt.Sprintf("(and (<= 0 %s) (<= %s %s))", ln.T, ln.T, cp.T), "makeslice", in)
 		el := v.Type().Underlying().(*types.Slice).Elem()
-		a := x.alloc(p, "KARR", 1)
+		ak := "KNARR"
+		if isNamed(el, "field") {
+			ak = "KARR"
+		}
+		a := x.alloc(p, ak, 1)
 		// zero-filled
 		p.assume(fmt.Sprintf("(forall ((k Int)) (! (= (select (select (Mem %s) %s) k) %s) :pattern ((select (select (Mem %s) %s) k))))", p.H, a, zeroElem(el), p.H, a))
 		x.bind(p, v, SV{K: KSlice, Arr: a, Off: "0", Len: ln.T, Cap: cp.T, Elem: el})
 		return true
 	case *ssa.MakeMap:
-		m := x.alloc(p, "KMAP", 1)
+		mk := "KNMAP"
+		if isNamed(v.Type().Underlying().(*types.Map).Elem(), "field") {
+			mk = "KMAP"
+		}
+		m := x.alloc(p, mk, 1)
 		p.assume(fmt.Sprintf("(forall ((k Str)) (! (not (select (select (MDom %s) %s) k)) :pattern ((select (select (MDom %s) %s) k))))", p.H, m, p.H, m))
 		p.assume(fmt.Sprintf("(= (select (MCard %s) %s) 0)", p.H, m))
 		x.bind(p, v, SV{K: KMap, T: m, MapT: v.Type().Underlying().(*types.Map)})
@@ -195,7 +203,11 @@ func (x *Exec) execAlloc(p *Path, v *ssa.Alloc) SV {
 	}
 	switch u := et.Underlying().(type) {
 	case *types.Array:
-		a := x.alloc(p, "KARR", 1)
+		ak := "KNARR"
+		if isNamed(u.Elem(), "field") {
+			ak = "KARR"
+		}
+		a := x.alloc(p, ak, 1)
 		return SV{K: KArrPtr, Arr: a, Len: fmt.Sprint(u.Len()), Elem: u.Elem()}
 	case *types.Slice:
 		c := x.alloc(p, "KCELL", 4)
